@@ -41,6 +41,7 @@ TAttempt == /\ Ev("attempt") /\ Fire /\ cand = E.tr
             /\ hist' = Append(hist, "open") /\ UNCHANGED <<maxd, owed>> /\ ~owed
 Cur == Len(hist)
 TFail == /\ Ev("fail") /\ Cur > 0
+         /\ E.argOk                                    \* the fatal-error classifier was handed the exception itself
          /\ IF E.kind = "main_raises" THEN MainFails(E.fatal) /\ hist[Cur] = "joined"
             ELSE /\ Fail(E.fatal)
                  /\ CASE E.kind = "joined_lost" -> hist[Cur] = "joined"
